@@ -11,7 +11,8 @@
 //
 //   - The session quorum is Access.Shareholders().  Contexts come from cfg.Contexts
 //     (cloned before use) or, when nil, from the real session setup driven by
-//     verif/harness/internal/drive/session with tape labels label+".s".
+//     verif/harness/internal/drive/session with tape labels label+".s" (seeded directly with
+//     session.NewContext should that setup not complete, see SessionContexts).
 //   - Every party has its own recording drive.Tape over the stream
 //     vh.NewRng(cfg.Seed, cfg.Prop, "tape/"+label, int(id)); label = cfg.Labels[id],
 //     default "a".  Two runs that differ only in one party's label differ only in that
@@ -43,6 +44,7 @@ import (
 	"github.com/bronlabs/bron-crypto/pkg/base/algebra"
 	ds "github.com/bronlabs/bron-crypto/pkg/base/datastructures"
 	"github.com/bronlabs/bron-crypto/pkg/base/datastructures/hashmap"
+	"github.com/bronlabs/bron-crypto/pkg/base/datastructures/hashset"
 	rsess "github.com/bronlabs/bron-crypto/pkg/mpc/session"
 	"github.com/bronlabs/bron-crypto/pkg/mpc/sharing"
 	"github.com/bronlabs/bron-crypto/pkg/mpc/sharing/accessstructures"
@@ -132,18 +134,60 @@ func Label(labels map[sharing.ID]string, id sharing.ID) string {
 }
 
 // SessionContexts runs the real session setup for quorum with tape labels label+".s"
-// and returns the contexts (one per party that completed) and the setup trace.
+// and returns the contexts (one per party) and the setup trace.  If the setup does not
+// complete for every party (a matter of C10, not of the protocol driven here) the contexts
+// are built directly with session.NewContext from seeds drawn from
+// vh.NewRng(seed, prop, "ctx", 0) — what pkg/mpc/session/testutils.MakeRandomContexts does —
+// and the setup trace gets a note.
 func SessionContexts(seed int64, prop string, quorum []sharing.ID, labels map[sharing.ID]string, hook drive.Hook) (map[sharing.ID]*rsess.Context, *drive.Trace) {
 	sl := map[sharing.ID]string{}
 	for _, id := range quorum {
 		sl[id] = Label(labels, id) + ".s"
 	}
-	str := dsess.Run(dsess.Config{Seed: seed, Prop: prop, Quorum: quorum, Labels: sl, Hook: hook})
+	var str *drive.Trace
 	ctxs := map[sharing.ID]*rsess.Context{}
-	for id, c := range dsess.Contexts(str) {
-		ctxs[id] = c.Clone()
+	p := vh.Safely(func() {
+		str = dsess.Run(dsess.Config{Seed: seed, Prop: prop, Quorum: quorum, Labels: sl, Hook: hook})
+		for id, c := range dsess.Contexts(str) {
+			ctxs[id] = c.Clone()
+		}
+		dsess.Forget(str)
+	})
+	if str == nil {
+		str = drive.NewTrace(dsess.Proto)
 	}
-	dsess.Forget(str)
+	complete := p == ""
+	for _, id := range quorum {
+		if ctxs[id] == nil {
+			complete = false
+		}
+	}
+	if complete {
+		return ctxs, str
+	}
+	str.Notes = append(str.Notes, "session setup did not complete ("+p+"); contexts seeded directly")
+	ctxs = map[sharing.ID]*rsess.Context{}
+	rng := vh.NewRng(seed, prop, "ctx", 0)
+	ids := append([]sharing.ID(nil), quorum...)
+	sort.Slice(ids, func(i, j int) bool { return ids[i] < ids[j] })
+	qs := hashset.NewComparable(ids...).Freeze()
+	common := rng.Bytes(64)
+	pair := map[sharing.ID]map[sharing.ID][]byte{}
+	for _, id := range ids {
+		pair[id] = map[sharing.ID][]byte{}
+	}
+	for i := range ids {
+		for j := i + 1; j < len(ids); j++ {
+			b := rng.Bytes(64)
+			pair[ids[i]][ids[j]] = b
+			pair[ids[j]][ids[i]] = b
+		}
+	}
+	for _, id := range ids {
+		if c, err := rsess.NewContext(id, qs, common, pair[id]); err == nil {
+			ctxs[id] = c
+		}
+	}
 	return ctxs, str
 }
 
